@@ -58,6 +58,7 @@ type Prog struct {
 	helperOK    map[*ssa.Function]bool
 	sitesOf     map[*ssa.Function][]*ssa.Call
 	usedAsValue map[*ssa.Function]bool
+	rootWrapper map[string]*ssa.Function // goroutine root name -> the wrapper closure that is its go target
 	ctx         []ssa.Instruction              // virtual call stack of the running deep enumeration (innermost last)
 	valueSites  map[*ssa.Function][]valueEntry // functions/closures passed to a helper parameter: where the helper calls them
 	declined    map[*ssa.Function]bool         // helpers some context could not inline
